@@ -47,10 +47,16 @@ class SimFile(io.RawIOBase):
         return self.pos
 
     def readinto(self, b):
-        n = min(len(b), max(0, len(self.buf) - self.pos))
+        # like HDF5's own sec2 driver: a read that reaches past the end of
+        # the file yields zeros for the missing part (a truncated image must
+        # not make the driver wait for bytes that never come)
+        want = len(b)
+        n = min(want, max(0, len(self.buf) - self.pos))
         b[:n] = self.buf[self.pos:self.pos + n]
-        self.pos += n
-        return n
+        if n < want:
+            b[n:want] = bytes(want - n)
+        self.pos += want
+        return want
 
     def write(self, data):
         if self.readonly:
@@ -106,6 +112,12 @@ def image_from(initial, log, upto, torn=None):
     return bytes(buf)
 
 
+class SoftDeath(BaseException):
+    """The writer 'dies' by an uncaught exception / sys.exit at a mark: no
+    application-level cleanup runs, but the interpreter shuts down in an
+    orderly way."""
+
+
 class SimDisk:
     """name -> durable bytes; per-file write logs; API-level marks."""
 
@@ -116,6 +128,8 @@ class SimDisk:
         self.marks = []       # (name, label, log position)
         self.removed = []
         self.temp_seq = 0
+        self.mark_count = 0
+        self.die_at = None    # raise SoftDeath at this mark (1-based)
 
     def exists(self, name):
         return name in self.files or name in self.open_files
@@ -128,6 +142,23 @@ class SimDisk:
     def mark(self, label):
         for name, (_, _, log) in self.open_files.items():
             self.marks.append((name, label, len(log)))
+        self.mark_count += 1
+        if self.die_at is not None and self.mark_count == self.die_at:
+            raise SoftDeath(label)
+
+    def interpreter_shutdown(self):
+        """What h5py does when the interpreter exits (or the objects are
+        collected) without the application closing its files: every open
+        HDF5 handle is closed, which flushes it."""
+        for name in list(self.open_files):
+            fo = self.open_files[name][0]
+            h = getattr(fo, "_h5", None)
+            if h is not None:
+                try:
+                    h.close()
+                except Exception:  # noqa: BLE001
+                    pass
+        self.sync_closed()
 
     def sync_closed(self):
         """Fold files whose h5py handle was closed into ``files``."""
@@ -193,6 +224,7 @@ class H5Shim(types.ModuleType):
         else:
             raise ValueError("Invalid mode; must be one of r, r+, w, w-, x, a")
         fo._h5_closed = lambda h=h: not bool(h)
+        fo._h5 = h
         disk.open_files[name] = (fo, initial, log)
         return h
 
